@@ -13,6 +13,9 @@
 // a timeout response only if the context really ended; ServeHTTP returns at the deadline when
 // the handler ignores it; nothing reaches the client after ServeHTTP returned; the handler's
 // deadline is min(parent deadline, start+timeout); websocket/SSE requests bypass the wrapper.
+//
+// Extension (flush.go): handlers that use http.Flusher (action F) and two requests through one
+// TimeoutHandler, against a client that tags every call with who made it and when.
 package main
 
 import (
@@ -20,6 +23,7 @@ import (
 	"errors"
 	"fmt"
 	"net/http"
+	"runtime"
 	"strings"
 	"time"
 
@@ -642,6 +646,12 @@ func confGroupsScenario(globalMs int, routeMs []int) vx.Scenario {
 func main() {
 	cfg := vlib.ParseFlags("C04", "model_checking")
 	r := vlib.NewReport(cfg)
+	if cfg.Shard != "" || cfg.Replay != "" {
+		// one P while executions run: per-P runtime caches (sync.Pool) that the code under test may
+		// use then behave identically in every execution (a Put followed by a Get returns the same
+		// object), which the determinism checks of the explorer rely on
+		runtime.GOMAXPROCS(1)
+	}
 	var sc []vx.Scenario
 	// action sequences
 	var seqs []string
@@ -687,6 +697,8 @@ func main() {
 		sc = append(sc, restScenario(restSpec{Acts: "HCW", End: "ret", Parent: "none", Exempt: ex}))
 		sc = append(sc, restScenario(restSpec{Acts: "W", End: "ret", Parent: "later", Exempt: ex}))
 	}
+	sc = append(sc, flushScenarios(cfg.Thorough())...)
+	sc = append(sc, orderScenarios(cfg.Thorough())...)
 	for _, k := range []string{"zrpc-server", "fx"} {
 		for _, w := range []string{"ok", "err", "panic", "stall"} {
 			for _, p := range []string{"none", "earlier", "later", "cancel-during"} {
@@ -724,5 +736,5 @@ func main() {
 		}
 	}
 	vx.Main(cfg, r, sc, vx.Bounds{P: 3, T: 1}, vx.Bounds{P: 4, T: 2},
-		"every interleaving (preemption bound / timer-deviation bound per scenario in the evidence) of a handler script with the expiry of the deadline on the virtual clock and client cancellation, for all scripts of <= 3 (4 thorough) header/status/body actions x 4 endings on the REST TimeoutHandler, all work behaviours x parent deadlines on the zRPC server interceptor and fx.DoWithTimeout, all default x per-call x incoming-deadline combinations of the zRPC client interceptor and all global x per-route REST timeout settings; distinct/non-trivial by (scenario, what the caller observed: full result, timeout result, re-raised panic)")
+		"every interleaving (preemption bound / timer-deviation bound per scenario in the evidence) of a handler script with the expiry of the deadline on the virtual clock and client cancellation, for all scripts of <= 3 (4 thorough) header/status/body actions x 4 endings on the REST TimeoutHandler, all work behaviours x parent deadlines on the zRPC server interceptor and fx.DoWithTimeout, all default x per-call x incoming-deadline combinations of the zRPC client interceptor and all global x per-route REST timeout settings; Flush sub-family (client = recording ResponseWriter+Flusher whose every call is a scheduling point tagged wrapper/handler thread): all scripts of <= 3 (4) actions from {header, status, write, flush} containing a flush x 4 endings, all scripts of <= 2 (3) actions x {stall, wait-for-context} x late scripts {F, WF, HF, CF} (all late scripts of <= 3 actions ending in a flush), client cancel on 4 scripts, and two requests through ONE TimeoutHandler (first times out with a late flushing handler, second completes; served one after the other and by two server threads); deadline-order family (T=0, P<=2 (4)): stalled work x {fx, zRPC server, REST} x parent {none, later 2dt, later 10dt, earlier dt/2, cancel at dt/2} with a marker timer at min(parent,dt)+1ms that must fire after the wrapper returned; distinct/non-trivial by (scenario, what the caller observed: full result, timeout result, re-raised panic)")
 }
